@@ -112,6 +112,8 @@ pub struct VerifyOut {
     pub result: Option<Out<Value>>,
     /// (iss asked for, header alg as the resolver saw it, key id returned)
     pub resolver_calls: Vec<(String, String, String)>,
+    /// the JOSE header exactly as the resolver was handed it (last call), as JSON
+    pub resolver_header: Option<Value>,
     /// verifier-local wall-clock seconds of every clock read during the call
     pub clock_reads: Vec<i64>,
 }
@@ -345,6 +347,8 @@ impl World {
         let res = resolver.clone();
         let calls: Arc<Mutex<Vec<(String, String, String)>>> = Arc::new(Mutex::new(Vec::new()));
         let calls2 = calls.clone();
+        let seen: Arc<Mutex<Option<Value>>> = Arc::new(Mutex::new(None));
+        let seen2 = seen.clone();
         let _ = seams::take_clock_reads();
         let (aud, nonce) = session.unwrap_or((None, None));
         let traffic = self.traffic.take().filter(|t| t.node != node || t.mode == 2);
@@ -359,6 +363,7 @@ impl World {
                     Resolver::Fixed(k) => k.clone(),
                 };
                 calls2.lock().unwrap_or_else(|e| e.into_inner()).push((iss.to_string(), format!("{:?}", header.alg), kid.clone()));
+                *seen2.lock().unwrap_or_else(|e| e.into_inner()) = serde_json::to_value(header).ok();
                 if let Some((iw, ifmt)) = &reentrant {
                     // the application verifies another SD-JWT before it answers
                     let d2 = dir_inner.clone();
@@ -453,7 +458,8 @@ impl World {
         }
         self.note_panic("verify", &o);
         let rc = calls.lock().unwrap_or_else(|e| e.into_inner()).clone();
-        VerifyOut { result: Some(o), resolver_calls: rc, clock_reads: reads }
+        let rh = seen.lock().unwrap_or_else(|e| e.into_inner()).clone();
+        VerifyOut { result: Some(o), resolver_calls: rc, resolver_header: rh, clock_reads: reads }
     }
 
     // ---- stub peers -----------------------------------------------------------------------
